@@ -60,7 +60,7 @@ def run (op : String) (a : Json) : Option (Except String Json) :=
       let wcfg ← OpsXml.getCfg a
       let f := field a "feat"
       let flag (k : String) : Bool := (field f k).getBool?.toOption.getD false
-      let ft : Xs.Bind.FN.Feat := ⟨flag "nillable", flag "tokens", flag "wrapper", flag "sequence", flag "fixed", flag "anyAttrs", flag "inherit", flag "wildcard", flag "union"⟩
+      let ft : Xs.Bind.FN.Feat := ⟨flag "nillable", flag "tokens", flag "wrapper", flag "sequence", flag "fixed", flag "anyAttrs", flag "inherit", flag "wildcard", flag "union", flag "qname"⟩
       let scfg : Xs.Bind.SerCfg :=
         { ignoreDefaultAttributes := (field a "ignore_default_attributes").getBool?.toOption.getD false }
       let out := match Xs.Compose.render Xs.Ns.tblNsEnv benv Γ scfg wcfg m v with
